@@ -400,11 +400,15 @@ def rule_F2(prog):
         rem = find_nodes(fn.hir["body"], lambda n: n["k"] == "call" and origin(n["f"]).endswith("from_text_diff"))
         if x != "lines":
             ok = ok and len(rem) == 1 and [origin(a) for a in rem[0]["args"]] == ["diff", "old", "new"]
-        r.ob(ok, "utils::diff_%s: %s remapper%s" % (x, [(c["name"], [origin(a) for a in c["args"]]) for c in calls],
-                                                   [[origin(a) for a in c["args"]] for c in rem]))
+        rets = find_nodes(fn.hir["body"], lambda n: n["k"] == "ret", stop=lambda n: n["k"] == "closure")
+        if rets:
+            ok = False
+        r.ob(ok, "utils::diff_%s: %s remapper%s early returns: %d" % (x, [(c["name"], [origin(a) for a in c["args"]]) for c in calls],
+                                                   [[origin(a) for a in c["args"]] for c in rem], len(rets)))
         if not ok:
-            r.find(fn.path, "utils-wiring", "utils::diff_%s must be configure().algorithm(alg).diff_%s(old, new) with "
-                   "TextDiffRemapper::from_text_diff(&diff, old, new)" % (x, x), file=fn.file, line=fn.line)
+            r.find(fn.path, "utils-wiring", "utils::diff_%s must be the straight-line wrapper configure().algorithm(alg).diff_%s(old, "
+                   "new) with TextDiffRemapper::from_text_diff(&diff, old, new) and no other return path (found %d early "
+                   "return(s))" % (x, x, len(rets)), file=fn.file, line=fn.line)
     return r
 
 
@@ -843,7 +847,7 @@ def _char_code(src):
 def _token_profile(fn):
     chars = set()
     classes = set()
-    ints = set()
+    bools = []
 
     def visit(n):
         k = n.get("k")
@@ -859,8 +863,10 @@ def _token_profile(fn):
                 chars.add(c)
         elif k == "mcall" and n["name"] in CLASSIFIERS:
             classes.add(n["name"])
+        if k == "lit" and n.get("ty") == "bool" and not n.get("exp") and n.get("src") in ("true", "false"):
+            bools.append(n.get("src", ""))
     walk_hir(fn.hir, visit)
-    return chars, classes
+    return chars, classes, tuple(sorted(bools))
 
 
 def rule_F7(prog):
@@ -886,11 +892,12 @@ def rule_F7(prog):
             continue
         ps, pb = _token_profile(s), _token_profile(b)
         ok = ps == pb
-        r.ob(ok, "%s: str uses chars %s classes %s; [u8] uses chars %s classes %s" % (
-            name, sorted(ps[0]), sorted(ps[1]), sorted(pb[0]), sorted(pb[1])))
+        r.ob(ok, "%s: str uses chars %s classes %s bools %s; [u8] uses chars %s classes %s bools %s" % (
+            name, sorted(ps[0]), sorted(ps[1]), list(ps[2]), sorted(pb[0]), sorted(pb[1]), list(pb[2])))
         if not ok:
-            r.find(b.path, "sibling:%s" % name, "%s: the [u8] implementation uses break characters %s / predicates %s, the str "
-                   "implementation %s / %s" % (name, sorted(pb[0]), sorted(pb[1]), sorted(ps[0]), sorted(ps[1])),
+            r.find(b.path, "sibling:%s" % name, "%s: the [u8] implementation uses break characters %s / predicates %s / boolean "
+                   "defaults %s, the str implementation %s / %s / %s" % (name, sorted(pb[0]), sorted(pb[1]), list(pb[2]),
+                                                                    sorted(ps[0]), sorted(ps[1]), list(ps[2])),
                    file=b.file, line=b.line)
     return r
 
@@ -1351,4 +1358,147 @@ def rule_F12(prog):
             r.find(fnb.path, "twins-differ:%s" % head, "%s: tokenize_words and tokenize_lines_and_newlines differ beyond the "
                    "character-class test, near `%s` vs `%s`" % (head, a[max(0, i - 60):i + 40], b[max(0, i - 60):i + 40]),
                    file=fnb.file, line=fnb.line)
+    return r
+
+
+# ---------------------------------------------------------------- F13 / F14 / F15 / F16
+def _tag_pair_arms(fn):
+    """Arms of `match (a.tag(), b.tag())` in compact.rs: [(tags tuple, arm)]"""
+    out = []
+    for mnode in find_nodes(fn.hir["body"], lambda n: n["k"] == "match"):
+        for a in mnode["arms"]:
+            pats = a["pat"]["pats"] if a["pat"].get("k") == "or" else [a["pat"]]
+            for p in pats:
+                if p.get("k") == "tuple" and len(p["pats"]) == 2:
+                    t = tuple(variant_of_pat(x) for x in p["pats"])
+                    if all(t):
+                        out.append((t, a, mnode))
+    return out
+
+
+def rule_F13(prog):
+    r = RuleResult("F13", "when compaction merges two adjacent ops of the same kind, the survivor grows by the length of the "
+                          "side that holds the items of that kind: new_range() for Insert+Insert, old_range() for Delete+Delete "
+                          "(the other range of such an op is empty)")
+    for name in ("algorithms::compact::shift_diff_ops_up", "algorithms::compact::shift_diff_ops_down"):
+        for fn in prog.find(name):
+            for tags, arm, _ in _tag_pair_arms(fn):
+                if tags[0] != tags[1] or tags[0] not in ("Insert", "Delete"):
+                    continue
+                grows = find_nodes(arm["body"], lambda n: n["k"] == "mcall" and n["name"] in ("grow_right", "grow_left"))
+                r.instances += 1
+                want = "new_range" if tags[0] == "Insert" else "old_range"
+                got = [origin(g["args"][0]) for g in grows if g["args"]]
+                ok = bool(got) and all(re.search(r"\.%s\(\)\.len\(\)$" % want, x) for x in got)
+                r.ob(ok, "%s arm (%s, %s): grows by %s" % (fn.name, tags[0], tags[1], got))
+                if not ok:
+                    r.find(fn.path, "merge-side:%s" % tags[0], "%s, arm (%s, %s): the merged op must grow by `<removed op>.%s().len()`; "
+                           "found %s (the %s of %s is always empty)" % (fn.name, tags[0], tags[1], want, got,
+                                                                        "old range" if tags[0] == "Insert" else "new range", "an Insert" if tags[0] == "Insert" else "a Delete"),
+                           file=fn.file, line=arm["pat"].get("line", fn.line))
+    return r
+
+
+def rule_F16(prog):
+    r = RuleResult("F16", "sliding an insertion down and sliding a deletion down are the same operation: the (Insert, Equal) "
+                          "and (Delete, Equal) arms of shift_diff_ops_down are identical")
+    for fn in prog.find("algorithms::compact::shift_diff_ops_down"):
+        arms = {}
+        for tags, arm, _ in _tag_pair_arms(fn):
+            if tags[1] == "Equal" and tags[0] in ("Insert", "Delete"):
+                arms[tags[0]] = arm
+        r.instances += 1
+        if set(arms) != {"Insert", "Delete"}:
+            r.ob(False, "shift_diff_ops_down: arms found %s" % sorted(arms))
+            r.find(fn.path, "arms-missing", "shift_diff_ops_down lacks an (Insert, Equal) or (Delete, Equal) arm", file=fn.file, line=fn.line)
+            continue
+        a = _norm_loop(arms["Insert"]["body"], set())
+        b = _norm_loop(arms["Delete"]["body"], set())
+        ok = a == b
+        r.ob(ok, "shift_diff_ops_down: (Insert, Equal) and (Delete, Equal) arms identical: %s" % ok)
+        if not ok:
+            i = next((i for i, (x, y) in enumerate(zip(a, b)) if x != y), min(len(a), len(b)))
+            r.find(fn.path, "twin-arms", "the (Insert, Equal) and (Delete, Equal) arms of shift_diff_ops_down differ near `%s` vs `%s`" % (
+                a[max(0, i - 50):i + 50], b[max(0, i - 50):i + 50]), file=fn.file, line=arms["Insert"]["pat"].get("line", fn.line))
+    return r
+
+
+def rule_F14(prog):
+    r = RuleResult("F14", "the key wrapper of IdentifyDistinct compares items in all four combinations (old/old, new/new, "
+                          "old/new, new/old): every arm of its PartialEq::eq compares the two payloads with ==, none returns a "
+                          "constant")
+    fns = [f for f in prog.user_fns() if f.name == "eq" and f.impl and f.impl.get("trait") == "std::cmp::PartialEq" and
+           (ty_head(f.impl["self_ty"]) or "").endswith("::Key")]
+    r.instances = len(fns)
+    for fn in fns:
+        combos = set()
+        bad = []
+        for mnode in find_nodes(fn.hir["body"], lambda n: n["k"] == "match"):
+            for a in mnode["arms"]:
+                pats = a["pat"]["pats"] if a["pat"].get("k") == "or" else [a["pat"]]
+                body = unwrap(a["body"])
+                is_cmp = isinstance(body, dict) and body.get("k") == "binary" and body["op"] == "=="
+                for p in pats:
+                    if p.get("k") == "tuple" and len(p["pats"]) == 2:
+                        names = []
+                        for x in p["pats"]:
+                            while isinstance(x, dict) and x.get("k") == "ref":
+                                x = x["pat"]
+                            names.append(((x.get("res") or {}).get("path", "?")).rsplit("::", 1)[-1] if isinstance(x, dict) else "?")
+                        if is_cmp:
+                            combos.add(tuple(names))
+                        else:
+                            bad.append("(%s) => %s" % (", ".join(names), origin(body)))
+                    else:
+                        if not is_cmp:
+                            bad.append("%s => %s" % (p.get("k"), origin(body)))
+        want = {("Old", "Old"), ("New", "New"), ("Old", "New"), ("New", "Old")}
+        ok = combos >= want and not bad
+        r.ob(ok, "Key::eq compares %s; other arms: %s" % (sorted(combos), bad))
+        if not ok:
+            r.find(fn.path, "key-eq", "Key::eq must compare the payloads for %s; compared: %s; arms that do not compare: %s" % (
+                sorted(want), sorted(combos), bad), file=fn.file, line=fn.line)
+    return r
+
+
+def rule_F15(prog):
+    r = RuleResult("F15", "unique(): `seen twice` is absorbing -- Some(index) is stored only through a vacant entry (first "
+                          "sighting); an occupied entry is only ever set to None; the map is never overwritten with Some")
+    for fn in prog.find("algorithms::utils::unique"):
+        r.instances += 1
+        m = fn.mir
+        problems = []
+        vac = occ_none = 0
+        for bb, t in m.calls():
+            c = m.callee(t)
+            if not c:
+                continue
+            p = c["path"]
+            if p.startswith("std::collections::HashMap::") and p.rsplit("::", 1)[-1] == "insert":
+                v = term_str(m.expand(m.resolve_operand(t["args"][2]))) if len(t["args"]) > 2 else "?"
+                if "None" not in v:
+                    problems.append("HashMap::insert(.., %s) overwrites an entry (line %d)" % (v, t["line"]))
+            if p.startswith("std::collections::hash_map::VacantEntry") and p.endswith("::insert"):
+                vac += 1
+            if p.startswith("std::collections::hash_map::OccupiedEntry") and p.endswith("::insert"):
+                v = term_str(m.expand(m.resolve_operand(t["args"][1])))
+                if "None" not in v:
+                    problems.append("OccupiedEntry::insert(%s) (line %d)" % (v, t["line"]))
+                else:
+                    occ_none += 1
+        for b in m.blocks:
+            for s_ in b["stmts"]:
+                if s_["k"] == "assign" and "deref" in s_["p"]["proj"]:
+                    v = term_str(m.expand(m.resolve_rvalue(s_["rv"])))
+                    if "None" in v:
+                        occ_none += 1
+                    elif "Some" in v:
+                        problems.append("an existing entry is set to %s (line %d)" % (v, s_["line"]))
+        if vac < 1:
+            problems.append("no first-sighting store through a vacant entry")
+        if occ_none < 1:
+            problems.append("no store of None for a repeated item")
+        r.ob(not problems, "unique(): vacant stores %d, None stores %d, problems %s" % (vac, occ_none, problems))
+        if problems:
+            r.find(fn.path, "absorbing-none", "unique(): " + "; ".join(problems), file=fn.file, line=fn.line)
     return r
